@@ -26,17 +26,20 @@ SpSeqs ==
 
 PathOf(c) == SpellAll(BasePath(Tpl(c.t)), c.sps)
 
+\* server modes: the deployed router with SWAGGER_UI unset / set; the harness-composed gate stack
+\* has no such mode
+Modes == {md \in [stack : Stacks, ui : UiModes] : md.stack = "server" \/ ~md.ui}
 \* every spelling sequence with the default headers, and (HdrCross) every header class with the
 \* documented spelling
 Cases ==
-    {c \in [m : Methods, t : TplNames, sps : SpSeqs, w : BOOLEAN, h : {DefaultHdr}, stack : Stacks] :
+    {c \in [m : Methods, t : TplNames, sps : SpSeqs, w : BOOLEAN, h : {DefaultHdr}, mode : Modes] :
         ApplicableAll(BasePath(Tpl(c.t)), c.sps)} \cup
-    (IF HdrCross THEN [m : Methods, t : TplNames, sps : {<<"exact">>}, w : BOOLEAN, h : HdrClasses, stack : Stacks] ELSE {})
+    (IF HdrCross THEN [m : Methods, t : TplNames, sps : {<<"exact">>}, w : BOOLEAN, h : HdrClasses, mode : Modes] ELSE {})
 
 Init ==
     /\ cs \in Cases
     /\ stage = "outer"
-    /\ rq = MkRq(cs.m, PathOf(cs), cs.w, cs.h, cs.stack)
+    /\ rq = MkRq(cs.m, PathOf(cs), cs.w, cs.h, cs.mode.stack, cs.mode.ui)
     /\ resp = NoResp
 
 Next ==
@@ -50,7 +53,7 @@ Spec == Init /\ [][Next]_vars
 GateInv == stage = "done" => C18_Gate(cs.w, resp.effect)
 LiveInv == stage = "done" => C18_Live(cs.m, cs.t, cs.sps, resp.effect)
 \* one decision per request (findOperation ranges over a Go map)
-DetInv == stage = "outer" => Cardinality(Serve(cs.m, PathOf(cs), cs.w, cs.h, cs.stack)) = 1
+DetInv == stage = "outer" => Cardinality(Serve(cs.m, PathOf(cs), cs.w, cs.h, cs.mode.stack, cs.mode.ui)) = 1
 \* the gate and the dispatcher agree: whatever reaches a handler was let through by the
 \* middleware for that very operation
 AgreeInv == stage = "handler" =>
@@ -59,8 +62,8 @@ AgreeInv == stage = "handler" =>
 \* generation -----------------------------------------------------------------------------
 EmitInv ==
     stage = "outer" =>
-        PrintT(<<"CASE", ToJson([m |-> cs.m, t |-> cs.t, sps |-> cs.sps, w |-> cs.w, h |-> cs.h, stack |-> cs.stack,
+        PrintT(<<"CASE", ToJson([m |-> cs.m, t |-> cs.t, sps |-> cs.sps, w |-> cs.w, h |-> cs.h, stack |-> cs.mode.stack, ui |-> cs.mode.ui,
                                  target |-> Target(PathOf(cs)),
                                  raw |-> RawSegs(PathOf(cs)), dec |-> DecSegs(PathOf(cs)),
-                                 exp |-> SetToSeq(Serve(cs.m, PathOf(cs), cs.w, cs.h, cs.stack))])>>)
+                                 exp |-> SetToSeq(Serve(cs.m, PathOf(cs), cs.w, cs.h, cs.mode.stack, cs.mode.ui))])>>)
 =============================================================================
